@@ -544,13 +544,14 @@ pub fn run(prop: &'static str, tier: Tier) -> i32 {
     let mut outcomes_total = 0;
     // depth bonus per property (the client world is cheap to rebuild)
     let delta: usize = match (prop, tier) {
-        ("C02", _) => 3,
-        ("C07", Tier::Quick) => 3,
+        ("C02", Tier::Quick) => 4,
+        ("C02", Tier::Thorough) => 3,
+        ("C07", Tier::Quick) => 4,
         ("C07", Tier::Thorough) => 2,
-        ("C10", Tier::Quick) => 1,
+        ("C10", Tier::Quick) => 2,
         ("C10", Tier::Thorough) => 2,
         ("C18", Tier::Thorough) => 3,
-        ("C11", Tier::Quick) => 3,
+        ("C11", Tier::Quick) => 4,
         ("C11", Tier::Thorough) => 3,
         _ => 0,
     };
@@ -567,7 +568,7 @@ pub fn run(prop: &'static str, tier: Tier) -> i32 {
         let share = (left / (plans.len() - i) as u32).max(per_plan / 4);
         let params = Params {
             depth_by_devs: p.depth_by_devs.clone(),
-            max_states: if tier == Tier::Quick { 300_000 } else { 5_000_000 },
+            max_states: if tier == Tier::Quick { 1_000_000 } else { 5_000_000 },
             time_cap: share,
             run_closure: matches!(prop, "C02" | "C11"),
         };
